@@ -1655,6 +1655,18 @@ def r5(ctx):
             continue
         n_sites += 1
         ok = any(pol and anchor_test(e, P, f.module) for e, pol in facts(st.node, f.node))
+        if not ok and isinstance(st.value, ast.Call) and isinstance(st.value.func, ast.Name) and len(st.value.args) == 1 \
+                and ap(st.value.args[0]) == P:
+            # `data = _strip_header(data)`: every return of the helper is its parameter itself, or a part of it
+            # returned under a startswith() test of that parameter
+            for h in repo.funcs.get(st.value.func.id, []):
+                if h.module is f.module and h.cls is None and h.parent_fn is None and h.node.args.args:
+                    hp = h.node.args.args[0].arg
+                    hrets = [n_ for n_ in walk(h.node) if isinstance(n_, ast.Return) and n_.value is not None]
+                    if hrets and not any(s_.path == hp for s_ in stores(h.node)) and all(
+                            ap(r_.value) == hp or any(pol and anchor_test(e, hp, h.module) for e, pol in facts(r_, h.node))
+                            for r_ in hrets):
+                        ok = True
         ctx.ob("C12.R5", f"parse_binary: `{norm(st.node)}` keeps a part of the document only after a startswith() test", ok,
                ctx.w(f, st.node), "the header bytes are searched anywhere in the document: a headerless document whose "
                "binary/string value embeds a headered LLSD document is cut at the embedded header")
@@ -2007,21 +2019,66 @@ def r10(ctx):
         m = repo.lookup_method(c, "xml_esc")
         ok = False
         if m is not None:
+            mev = ConstEval(repo, m.module)
+
+            def _local(e, m=m):
+                # single-assignment local alias of the method
+                for _ in range(3):
+                    if isinstance(e, ast.Name):
+                        vs = [st_.value for st_ in stores(m.node, into_defs=False) if st_.path == e.id and st_.kind == "assign"
+                              and st_.value is not None]
+                        if len(vs) == 1:
+                            e = vs[0]
+                            continue
+                    break
+                return e
             for rt in [x.value for x in walk(m.node) if isinstance(x, ast.Return) and x.value is not None]:
-                cur, repl = rt, []
+                cur, repl = _local(rt), []
                 while isinstance(cur, ast.Call) and isinstance(cur.func, ast.Attribute) and cur.func.attr == "replace":
                     repl.append(cur)
-                    cur = cur.func.value
+                    cur = _local(cur.func.value)
                 base_ok = isinstance(cur, ast.Call) and isinstance(cur.func, ast.Attribute) and cur.func.attr == "xml_esc" and \
                     isinstance(cur.func.value, ast.Call) and ap(cur.func.value.func) == "super"
-                cr = [r_ for r_ in repl if len(r_.args) == 2 and isinstance(r_.args[0], ast.Constant) and r_.args[0].value in (b"\r", "\r")
-                      and isinstance(r_.args[1], ast.Constant) and isinstance(r_.args[1].value, type(r_.args[0].value))
-                      and r_.args[0].value not in r_.args[1].value]
+                cr = []
+                for r_ in repl:
+                    if len(r_.args) != 2:
+                        continue
+                    a0, a1 = mev.ev(r_.args[0]), mev.ev(r_.args[1])
+                    if a0 in (b"\r", "\r") and isinstance(a1, type(a0)) and a0 not in a1:
+                        cr.append(r_)
                 ok = base_ok and bool(cr)
         ctx.ob("C12.R10", f"{c.name}: carriage returns are written as a character reference", ok, ctx.w(lmod, c.node),
                "the inherited xml_esc writes U+000D raw: 'a\\r\\nb' in a message string comes back as 'a\\nb' through the XML form "
                "(the dict form keeps it)")
     ctx.floor("C12.R10", "Hippo XML formatter classes", n, 2)
+    # map keys: a vendored map handler that writes its keys through _elt(b'key', ...) without xml_esc() leaves them raw
+    # unless the Hippo class overrides that handler or escapes keys in _elt
+    tp = ThirdParty()
+    for c in repo.subclasses(fci, strict=True):
+        for b in c.base_names:
+            cname = b.split(".")[-1]
+            r_ = tp.lookup("llsd.serde_xml", cname) if "XML" in cname else None
+            if not (r_ and r_[0] == "class"):
+                continue
+            for meth in [m_ for m_ in r_[2].body if isinstance(m_, FUNC_TYPES) and m_.name.endswith("MAP")]:
+                raw_keys = [x for x in ast.walk(meth) if isinstance(x, ast.Call) and ap(x.func) == "self._elt" and x.args
+                            and isinstance(x.args[0], ast.Constant) and x.args[0].value == b"key"
+                            and not any(isinstance(y, ast.Call) and call_attr(y) == "xml_esc" for y in ast.walk(x))]
+                if not raw_keys:
+                    continue
+                own = c.methods.get(meth.name)
+                ok = own is not None and any(call_attr(y) == "xml_esc" for y in calls(own.node))
+                elt = c.methods.get("_elt")
+                if not ok and elt is not None:
+                    for y in calls(elt.node):
+                        if call_attr(y) == "xml_esc" and any(
+                                pol and isinstance(e, ast.Compare) and any(isinstance(k_, ast.Constant) and k_.value == b"key"
+                                                                          for k_ in ast.walk(e))
+                                for e, pol in facts(y, elt.node)):
+                            ok = True
+                ctx.ob("C12.R10", f"{c.name}: map keys written by {meth.name} are escaped", ok, ctx.w(lmod, c.node),
+                       f"the vendored {cname}.{meth.name} writes keys with _elt(b'key', ...) and no xml_esc(): a key containing '&' or "
+                       f"'<' gives XML that parse_xml rejects, a CR in a key is normalised to LF")
 
 
 def r11(ctx):
